@@ -831,7 +831,15 @@ static void gen_expr(Node *node) {
       println("  and %%r9, %%rax");
       println("  or %%rdi, %%rax");
       store(node->ty);
+
+      // The value of the assignment expression is the value that the
+      // bitfield holds after the store, not the unconverted rhs.
       println("  mov %%r8, %%rax");
+      println("  shl $%d, %%rax", 64 - mem->bit_width);
+      if (mem->ty->is_unsigned)
+        println("  shr $%d, %%rax", 64 - mem->bit_width);
+      else
+        println("  sar $%d, %%rax", 64 - mem->bit_width);
       return;
     }
 
